@@ -325,7 +325,10 @@ class Contract(Contract_):
         outcome, value = "return", None
         try:
             for _ in ex.exec_block(node.body, frame):
-                raise OutOfReach("generator function verified as a plain one")
+                if not self.options.get("generator"):
+                    raise OutOfReach("generator function verified as a plain one")
+                # option generator: the body is driven to its end, every
+                # `yield` continues (the consumer is unconstrained)
         except _Return as r:
             value = r.value
         except PyRaise as p:
